@@ -615,7 +615,7 @@ def real_accepts(c, attr, env, T, seed=None):
 def oracle_tree(h, r):
     """Returns (list of (sig, detail), nontrivial, label)."""
     from xdsl.irdl import ConstraintContext
-    from xdsl.utils.exceptions import VerifyException
+    from xdsl.utils.exceptions import PyRDLError
     T = tables()
     tree = r["tree"]
     validate_spec(tree, T)
@@ -652,6 +652,11 @@ def oracle_tree(h, r):
                         break
             except BuildRejected as e:
                 h.discard(f"build_relax_{style}_{e.label}")
+                continue
+            except PyRDLError:
+                # relax_constraint merges the one differing parameter with `|`, which raises the
+                # documented construction error when the two parameter constraints overlap
+                h.discard(f"build_relax_{style}_pyrdl_error")
                 continue
             except RecursionError:
                 raise
